@@ -23,35 +23,48 @@ CONSTANTS Target,        \* instructions after which the walk only closes what i
           Params, Results, \* the function's signature (sequences of types)
           Ops,           \* the subset of OpSig this run may use
           CallSigs,      \* set of callee signatures [p, r] available in the module
-          AllowInvalid   \* TRUE: one MutateInvalid step may happen
+          AllowInvalid,  \* TRUE: one MutateInvalid step may happen
+          AddrClass,     \* class of address constants: "addr" (mostly in bounds) or "edge" (around the end of the memory)
+          Idioms         \* TRUE: the compound steps that instruction selection fuses (compare+branch, operand atoms) are enabled
 
-VARIABLES code, vstack, cstack, bad, fin
-vars == <<code, vstack, cstack, bad, fin>>
+VARIABLES code, vstack, cstack, bad, fin,
+          pend           \* "" or the second stage of a compound idiom step ("rel": operands pushed, relation to be chosen; "relsel": then select)
+vars == <<code, vstack, cstack, bad, fin, pend>>
 
 NumT == {"i32", "i64", "f32", "f64"}
 ValT == NumT \cup {"v128"}
-(* locals: parameters first, then two scratch locals per numeric type, one v128, three loop counters *)
-Scratch == <<"i32", "i32", "i64", "i64", "f32", "f32", "f64", "f64", "v128", "i32", "i32", "i32">>
+(* locals: parameters first, then two scratch locals per numeric type, one v128, three loop counters, one address register *)
+Scratch == <<"i32", "i32", "i64", "i64", "f32", "f32", "f64", "f64", "v128", "i32", "i32", "i32", "i32">>
 Locals == Params \o Scratch
 ScratchBase == Len(Params)
 TmpOf(t) == ScratchBase + (CASE t = "i32" -> 1 [] t = "i64" -> 3 [] t = "f32" -> 5 [] t = "f64" -> 7 [] t = "v128" -> 9)
 Counter(d) == ScratchBase + 9 + d        \* d = 1..3: loop nesting level
-FreeLocals == 1..(ScratchBase + 9)       \* everything but the loop counters
+AR == ScratchBase + 13                   \* the address register: written only by SetAddr, base of the *Reg accesses
+FreeLocals == 1..(ScratchBase + 9)       \* everything but the loop counters and the address register
 
 I(op, a, b) == [op |-> op, a |-> a, b |-> b]
+LocalsOf(t) == {i \in FreeLocals : Locals[i] = t}
 Frame(k, res, h, lp) == [kind |-> k, res |-> res, height |-> h, unreach |-> FALSE, loops |-> lp]
 
-Init == /\ code = <<>> /\ vstack = <<>> /\ bad = ""
+(* with Idioms the scratch value locals start with (driver chosen) constants instead of zero *)
+RECURSIVE PrologueFrom(_)
+PrologueFrom(k) == IF k > 8 THEN <<>> ELSE <<I(Scratch[k] \o ".const", "const", ""), I("local.set", ScratchBase + k, "")>> \o PrologueFrom(k + 1)
+Prologue == IF Idioms THEN PrologueFrom(1) \o <<I("i32.const", AddrClass, "reg"), I("local.set", ScratchBase + 13, "")>> ELSE <<>>
+
+Init == /\ code = Prologue /\ vstack = <<>> /\ bad = "" /\ pend = ""
         /\ cstack = <<Frame("func", Results, 0, 0)>> /\ fin = FALSE
 
+ConstOf(t) == IF t = "v128" THEN I("v128.const", "v128const", "") ELSE I(t \o ".const", "const", "")
 Top == cstack[Len(cstack)]
 Live == ~fin /\ ~Top.unreach
-Growing == Len(code) < Target
-Room(n) == Len(code) + n <= MaxLen
+Growing == Len(code) - Len(Prologue) < Target
+Room(n) == Len(code) - Len(Prologue) + n <= MaxLen
 Avail == Len(vstack) - Top.height       \* operands of the current frame
 TopTypes(n) == SubSeq(vstack, Len(vstack) - n + 1, Len(vstack))
 Pop(n) == SubSeq(vstack, 1, Len(vstack) - n)
 Emit(is) == code' = code \o is
+(* a value that differs from walk to walk but is a function of the state: keeps the number of successors small *)
+Mix == Len(code) + 3 * Len(vstack) + 5 * Len(cstack)
 
 -----------------------------------------------------------------------------
 (* plain instructions from the table *)
@@ -69,7 +82,7 @@ MemLoad ==
   /\ Live /\ Growing
   /\ \E o \in Ops : /\ o.imm \in {"mem1", "mem2", "mem4", "mem8", "mem16"} /\ o.pop = <<"i32">>
                     /\ vstack' = vstack \o o.push
-                    /\ Emit(<<I("i32.const", "addr", ""), I(o.op, o.imm, "")>>)
+                    /\ Emit(<<I("i32.const", AddrClass, ""), I(o.op, o.imm, "")>>)
   /\ UNCHANGED <<cstack, bad, fin>>
 
 MemStore ==     \* value on the stack -> scratch local ; address ; value ; store
@@ -77,15 +90,120 @@ MemStore ==     \* value on the stack -> scratch local ; address ; value ; store
   /\ \E o \in Ops : /\ o.imm \in {"mem1", "mem2", "mem4", "mem8", "mem16"} /\ Len(o.pop) = 2 /\ o.push = <<>>
                     /\ vstack[Len(vstack)] = o.pop[2]
                     /\ vstack' = Pop(1)
-                    /\ Emit(<<I("local.set", TmpOf(o.pop[2]), ""), I("i32.const", "addr", ""), I("local.get", TmpOf(o.pop[2]), ""), I(o.op, o.imm, "")>>)
+                    /\ Emit(<<I("local.set", TmpOf(o.pop[2]), ""), I("i32.const", AddrClass, ""), I("local.get", TmpOf(o.pop[2]), ""), I(o.op, o.imm, "")>>)
   /\ UNCHANGED <<cstack, bad, fin>>
 
 MemLane ==      \* v128.loadN_lane / storeN_lane: [i32 v128] -> [v128] / []
   /\ Live /\ Growing /\ Avail >= 1 /\ vstack[Len(vstack)] = "v128"
   /\ \E o \in Ops : /\ o.imm \in {"memlane1", "memlane2", "memlane4", "memlane8"}
                     /\ vstack' = Pop(1) \o o.push
-                    /\ Emit(<<I("local.set", TmpOf("v128"), ""), I("i32.const", "addr", ""), I("local.get", TmpOf("v128"), ""), I(o.op, o.imm, "")>>)
+                    /\ Emit(<<I("local.set", TmpOf("v128"), ""), I("i32.const", AddrClass, ""), I("local.get", TmpOf("v128"), ""), I(o.op, o.imm, "")>>)
   /\ UNCHANGED <<cstack, bad, fin>>
+
+
+(* the same accesses through the address register: several accesses share ONE address value with different static
+   offsets and widths, which is what bounds-check elimination reasons about *)
+SetAddr ==
+  /\ Live /\ Growing /\ Idioms
+  /\ \/ Emit(<<I("i32.const", AddrClass, "reg"), I("local.set", AR, "")>>)
+     \/ \E i \in 1..Len(Params) : Params[i] = "i32" /\ Emit(<<I("local.get", i, ""), I("local.set", AR, "")>>)      \* the caller's value
+  /\ UNCHANGED <<vstack, cstack, bad, fin>>
+
+MemLoadReg ==
+  /\ Live /\ Growing /\ Idioms
+  /\ \E o \in Ops : /\ o.imm \in {"mem1", "mem2", "mem4", "mem8", "mem16"} /\ o.pop = <<"i32">>
+                    /\ vstack' = vstack \o o.push
+                    /\ Emit(<<I("local.get", AR, ""), I(o.op, o.imm, "")>>)
+  /\ UNCHANGED <<cstack, bad, fin>>
+
+MemStoreReg ==
+  /\ Live /\ Growing /\ Idioms /\ Avail >= 1
+  /\ \E o \in Ops : /\ o.imm \in {"mem1", "mem2", "mem4", "mem8", "mem16"} /\ Len(o.pop) = 2 /\ o.push = <<>>
+                    /\ vstack[Len(vstack)] = o.pop[2]
+                    /\ vstack' = Pop(1)
+                    /\ Emit(<<I("local.set", TmpOf(o.pop[2]), ""), I("local.get", AR, ""), I("local.get", TmpOf(o.pop[2]), ""), I(o.op, o.imm, "")>>)
+  /\ UNCHANGED <<cstack, bad, fin>>
+
+(* an access through the address register under a condition (if without else, or both arms), one compound step that
+   leaves both stacks as they were: the accesses after it meet the facts of two paths at the join *)
+GuardedAccess ==
+  /\ Live /\ Growing /\ Idioms /\ Len(code) % 3 = 2
+  /\ \E o \in Ops : \E c \in LocalsOf("i32") : \E both \in BOOLEAN :
+       /\ o.imm \in {"mem1", "mem2", "mem4", "mem8", "mem16"} /\ o.pop = <<"i32">>
+       /\ Emit(<<I("local.get", c, "")>> \o (IF Mix % 2 = 0 THEN <<I("i32.eqz", "", "")>> ELSE <<>>)
+               \o <<I("if", <<>>, ""), I("local.get", AR, ""), I(o.op, o.imm, ""), I("drop", "", "")>>
+               \o (IF both THEN <<I("else", "", ""), I("local.get", AR, ""), I(o.op, o.imm, ""), I("drop", "", "")>> ELSE <<>>)
+               \o <<I("end", "", "")>>)
+  /\ UNCHANGED <<vstack, cstack, bad, fin>>
+
+(* a store that brings its own value (a local or a constant), through a constant address or the address register *)
+MemStoreAtom ==
+  /\ Live /\ Growing /\ Idioms
+  /\ \E o \in Ops : /\ o.imm \in {"mem1", "mem2", "mem4", "mem8", "mem16"} /\ Len(o.pop) = 2 /\ o.push = <<>>
+                    /\ \E viaReg \in BOOLEAN : \E fromLocal \in BOOLEAN :
+                         Emit(<<IF viaReg THEN I("local.get", AR, "") ELSE I("i32.const", AddrClass, ""),
+                                IF fromLocal THEN I("local.get", TmpOf(o.pop[2]), "") ELSE ConstOf(o.pop[2]), I(o.op, o.imm, "")>>)
+  /\ UNCHANGED <<vstack, cstack, bad, fin>>
+
+-----------------------------------------------------------------------------
+(* Idioms of instruction selection.  Both back ends match a comparison together with the instructions that define
+   its operands (a constant zero, an and / add / shift of two values, a load used once) and with its consumer
+   (br_if, if, select).  A fused comparison is one compound step: <atom A> <atom B> <relop>, optionally below two
+   select operands; the consumer is forced by Next (JustCompared). *)
+RelOp(o) == Len(o.pop) = 2 /\ o.pop[1] = o.pop[2] /\ o.pop[1] \in NumT /\ o.push = <<"i32">> /\ o.imm = ""
+RelOps == {x \in Ops : RelOp(x)}
+RelNames == {o.op : o \in RelOps}
+RelTypes == {o.pop[1] : o \in RelOps}
+OpNames == {o.op : o \in Ops}
+BinOpsOf == [t \in NumT |-> {x \in Ops : x.pop = <<t, t>> /\ x.push = <<t>> /\ x.imm = ""}]
+IntT == {"i32", "i64"}
+AtomShapes(t) == IF t \in IntT THEN {"zero", "const", "local", "bin", "load"} ELSE {"const", "local", "bin", "load"}
+BinSeq(t) == IF t \in IntT THEN <<t \o ".and", t \o ".add", t \o ".shl", t \o ".or">> ELSE <<t \o ".add", t \o ".mul", t \o ".sub", t \o ".add">>
+LoadOf(t) == t \o ".load"
+HasOp(name) == name \in OpNames
+MemImm(t) == IF t \in {"i32", "f32"} THEN "mem4" ELSE "mem8"
+(* the instruction sequences of an atom of type t *)
+AtomCodes(shape, t) ==
+  CASE shape = "zero" -> {<<I(t \o ".const", 0, "")>>}
+    [] shape = "const" -> {<<I(t \o ".const", "const", "")>>}
+    [] shape = "local" -> {<<I("local.get", i, "")>> : i \in LocalsOf(t)}
+    [] shape = "bin" -> LET b == BinSeq(t)[(Mix % 4) + 1] IN
+                        IF HasOp(b) THEN {<<I("local.get", i, ""), IF Mix % 3 = 0 THEN I(t \o ".const", "const", "") ELSE I("local.get", TmpOf(t) + 1, ""), I(b, "", "")>> : i \in LocalsOf(t)}
+                        ELSE {}
+    [] shape = "load" -> IF HasOp(LoadOf(t)) THEN {<<I("i32.const", AddrClass, ""), I(LoadOf(t), MemImm(t), "")>>} ELSE {}
+ShapePairs == {<<"zero", "bin">>, <<"bin", "zero">>, <<"local", "const">>, <<"const", "local">>, <<"load", "local">>, <<"local", "load">>,
+               <<"bin", "local">>, <<"local", "bin">>, <<"zero", "local">>, <<"local", "zero">>, <<"load", "const">>}
+
+(* stage 1: the operands (below them the two select operands when the comparison is to feed select) *)
+FusedAtoms ==
+  /\ Live /\ Growing /\ Idioms /\ Len(code) % 3 = 0 /\ pend = ""
+  /\ \E t \in RelTypes : \E sp \in ShapePairs :
+       /\ sp[1] \in AtomShapes(t) /\ sp[2] \in AtomShapes(t)
+       /\ \E a \in AtomCodes(sp[1], t) : \E b \in AtomCodes(sp[2], t) : \E sel \in BOOLEAN :
+            LET t2 == CASE Mix % 4 = 0 -> "i32" [] Mix % 4 = 1 -> "i64" [] Mix % 4 = 2 -> "f32" [] OTHER -> "f64" IN
+            IF sel THEN /\ Emit(<<I("local.get", TmpOf(t2), ""), I(t2 \o ".const", "const", "")>> \o a \o b)
+                        /\ vstack' = vstack \o <<t2, t2, t, t>> /\ pend' = "relsel"
+                   ELSE Emit(a \o b) /\ vstack' = vstack \o <<t, t>> /\ pend' = "rel"
+  /\ UNCHANGED <<cstack, bad, fin>>
+(* stage 2: the relation (and the select) *)
+PickRel ==
+  /\ pend \in {"rel", "relsel"}
+  /\ \E o \in RelOps :
+       /\ o.pop[1] = vstack[Len(vstack)]
+       /\ IF pend = "relsel" THEN Emit(<<I(o.op, "", ""), I("select", vstack[Len(vstack) - 2], "")>>) /\ vstack' = Pop(3)
+                             ELSE Emit(<<I(o.op, "", "")>>) /\ vstack' = Append(Pop(2), "i32")
+  /\ pend' = "" /\ UNCHANGED <<cstack, bad, fin>>
+
+(* arithmetic with an operand atom on the right: constant, load used once (memory operand), result of another operation *)
+FusedBin ==
+  /\ Live /\ Growing /\ Idioms /\ Len(code) % 3 = 1 /\ Avail >= 1 /\ vstack[Len(vstack)] \in NumT
+  /\ LET t == vstack[Len(vstack)] IN
+     \E o \in BinOpsOf[t] : \E shape \in {"const", "load", "bin", "zero"} :
+       /\ shape \in AtomShapes(t)
+       /\ LET bs == AtomCodes(shape, t) IN bs # {} /\ Emit((CHOOSE b \in bs : TRUE) \o <<I(o.op, "", "")>>)
+  /\ UNCHANGED <<vstack, cstack, bad, fin>>
+
+JustCompared == code # <<>> /\ code[Len(code)].op \in RelNames
 
 LocalGet == /\ Live /\ Growing
             /\ \E i \in FreeLocals : vstack' = Append(vstack, Locals[i]) /\ Emit(<<I("local.get", i, "")>>)
@@ -177,7 +295,6 @@ Exit == /\ Live /\ Growing /\ Len(cstack) > 1
 (* closing phase: drop what is too much, push what is missing, end *)
 Need == Top.res
 Have == Avail
-ConstOf(t) == IF t = "v128" THEN I("v128.const", "v128const", "") ELSE I(t \o ".const", "const", "")
 Close ==
   /\ Live /\ ~Growing
   /\ IF Have > Len(Need) \/ (Have > 0 /\ TopTypes(Have) # SubSeq(Need, 1, Have))
@@ -218,14 +335,20 @@ MutateInvalid ==
         /\ Top.kind \in {"block", "loop"} /\ AtEnd(Top)
   /\ UNCHANGED <<cstack, fin>>
 
-Next == \/ Plain \/ MemLoad \/ MemStore \/ MemLane \/ LocalGet \/ LocalSet \/ GlobalGet \/ GlobalSet \/ Drop \/ Select \/ Call
+Step == \/ Plain \/ MemLoad \/ MemStore \/ MemLane \/ LocalGet \/ LocalSet \/ GlobalGet \/ GlobalSet \/ Drop \/ Select \/ Call
+        \/ SetAddr \/ MemLoadReg \/ MemStoreReg \/ MemStoreAtom \/ GuardedAccess \/ FusedBin
         \/ OpenBlock \/ OpenLoop \/ OpenIf \/ Else \/ End \/ BrIf \/ Exit \/ Close \/ Finish \/ MutateInvalid
+(* a comparison result is consumed by a conditional most of the time (OpenIf is enabled whenever the guard holds) *)
+Next == IF pend # "" THEN PickRel
+        ELSE IF Idioms /\ JustCompared /\ Live /\ Growing /\ Len(cstack) < 5 /\ Len(code) % 4 # 3
+        THEN (OpenIf \/ BrIf) /\ pend' = ""
+        ELSE (Step /\ pend' = "") \/ FusedAtoms
 Spec == Init /\ [][Next]_vars
 
 -----------------------------------------------------------------------------
 (* invariants of the automaton itself *)
 StackAboveFrames == \A i \in 1..Len(cstack) : cstack[i].height <= Len(vstack) \/ cstack[i].unreach \/ \E j \in i..Len(cstack) : cstack[j].unreach
 FramesNested == \A i \in 1..(Len(cstack) - 1) : cstack[i].height <= cstack[i + 1].height
-Bounded == Len(code) <= MaxLen + 12
+Bounded == Len(code) - Len(Prologue) <= MaxLen + 12
 EmitBody == fin => PrintT(<<"EMIT", ToJson([params |-> Params, results |-> Results, code |-> code, bad |-> bad])>>)
 =============================================================================
